@@ -8,7 +8,8 @@ EXTENDS HttpStream
 
 NoPad == [rl |-> 0, h |-> 0, c |-> 0, t |-> 0]
 Mk(rl, hs, fr, n, cs, last, trl, pad) ==
-  [rl |-> rl, hdrs |-> hs, fr |-> fr, n |-> n, chunks |-> cs, last |-> last, trl |-> trl, pad |-> pad]
+  [px |-> "none", rl |-> rl, hdrs |-> hs, fr |-> fr, n |-> n, chunks |-> cs, last |-> last, trl |-> trl, pad |-> pad]
+WithPx(m, px) == [m EXCEPT !.px = px]
 
 Follower == Mk("RL11", <<>>, "none", 0, <<>>, "none", <<>>, NoPad)
 Ch(sz) == [sz |-> sz, n |-> SizeVal(sz), term |-> TRUE, junk |-> 0]
@@ -90,7 +91,15 @@ Endless ==
                       [rl |-> 0, h |-> 0, c |-> c, t |-> t])>>) :
          c \in {0, 14}, t \in {0, 14}, trl \in {<<>>, <<"Plain">>, <<"Plain", "Plain", "Plain", "Plain", "Plain", "Plain">>}}
 
-Cases(f) == CASE f = "heads1" -> Heads1 [] f = "heads2" -> Heads2 [] f = "heads3" -> Heads3
+(* PROXY protocol preamble: enabled / not enabled, well-formed / malformed, on the first and on a later message,
+   with a padded request line behind it (limits apply there too) *)
+ProxyFam ==
+  {Full(<<WithPx(Canon(rl, hs, [rl |-> p, h |-> 0, c |-> 0, t |-> 0]), px1), WithPx(m2, px2)>>) :
+       rl \in RLAll, hs \in {<<>>, <<"CL1">>, <<"TEchunked">>}, p \in {0, 4}, px1 \in {"none", "on_ok", "on_bad", "off_ok"},
+       m2 \in {Follower, Canon("RL11", <<"CL2">>, NoPad)}, px2 \in {"none", "on_ok"}}
+  \cup UNION {AllCuts(<<WithPx(Canon("RL11", <<"CL1">>, [rl |-> p, h |-> 0, c |-> 0, t |-> 0]), "on_ok"), Follower>>) : p \in {0, 6}}
+
+Cases(f) == CASE f = "proxy" -> ProxyFam [] f = "heads1" -> Heads1 [] f = "heads2" -> Heads2 [] f = "heads3" -> Heads3
               [] f = "chunks" -> Chunks [] f = "pipeline" -> Pipeline [] f = "trunc" -> Trunc
               [] f = "limits" -> Limits [] f = "endless" -> Endless
               [] f = "quick" -> Heads1 \cup Chunks \cup Trunc
